@@ -42,11 +42,16 @@ def gen_case(rng, hermitian):
     eig = (not chain) and rng.random() < 0.25
     # a custom Sylvester solver (then H_0 only has to be block diagonal, not diagonal): two-argument form for any number of
     # blocks, the deprecated one-argument form for two blocks in Hermitian mode
+    # non-Hermitian: all imaginary parts of the unperturbed energies tiny (|Im E| ~ 1e-4): they must not be dropped
+    tinyim = (not hermitian) and (not chain) and rng.random() < 0.25
+    # blocks handed over separately as scipy.sparse MATRICES (csr_matrix / coo_matrix: `*` is the matrix product there),
+    # as a BlockSeries-free nested list per order; only with subspace designation implied by the block structure
+    spm = (fmt == "sparse") and (not chain) and (not eig) and rng.random() < 0.35
     custom = None
     if not chain and not eig and not fully and nb >= 2 and rng.random() < 0.3:
         custom = "legacy" if (nb == 2 and hermitian and rng.random() < 0.5) else "index"
     return dict(sizes=sizes, nparam=nparam, fmt=fmt, cplx=cplx, seed=seed, fully=fully, hermitian=hermitian,
-                N=3, cplx_energy=(not hermitian and not chain and rng.random() < 0.6), chain=chain, atol=(0.1 if chain else None), eig=eig, custom=custom)
+                N=3, cplx_energy=(not hermitian and not chain and rng.random() < 0.6), chain=chain, atol=(0.1 if chain else None), eig=eig, custom=custom, tinyim=tinyim, spm=(spm and custom is None))
 
 
 def build(case):
@@ -59,6 +64,8 @@ def build(case):
     pos = 0
     for b, s in enumerate(sizes):
         base = 3.0 * b + rs.uniform(0, 0.5) + (1j * rs.uniform(-1, 1) if case["cplx_energy"] else 0)
+        if case.get("tinyim"):
+            base = base.real + 1.5e-4j * rs.uniform(-1, 1)
         for a in range(s):
             if case.get("chain") and b == case["fully"][0]:
                 lvl = base + (0.06 * a if a < 3 else 0.12 + 0.45 * (a - 2))
@@ -67,9 +74,12 @@ def build(case):
                 lvl = base + 0.5 * (a if not (a == 1 and rs.uniform() < 0.3) else 0)
             else:
                 lvl = base
+            if case.get("tinyim") and b in case["fully"]:
+                # every distinct level of a fully diagonalised block gets its own tiny imaginary part (equal levels stay equal)
+                lvl = lvl.real + 1.5e-4j * np.sin(37.0 * lvl.real)
             E[pos] = lvl
             pos += 1
-    if not case["cplx_energy"]:
+    if not (case["cplx_energy"] or case.get("tinyim")):
         E = E.real
     H0 = np.diag(E)
     terms = {}
@@ -183,6 +193,16 @@ def check_case(case, tol=2e-8):
         H = {(0,) * k: conv(H0)}
         for o, M in terms.items():
             H[o] = conv(M)
+    elif case.get("spm"):
+        offs0 = np.cumsum([0] + sizes)
+        mk = sp.csr_matrix if case["seed"] % 2 else sp.coo_matrix
+
+        def blocks(M):
+            return [[mk(np.asarray(M)[offs0[i]:offs0[i + 1], offs0[j]:offs0[j + 1]]) for j in range(nb)] for i in range(nb)]
+        H = {(0,) * k: blocks(H0)}
+        for o, M in terms.items():
+            H[o] = blocks(M)
+        bkw = {}
     else:
         H = {(0,) * k: conv(H0)}
         for o, M in terms.items():
@@ -263,6 +283,16 @@ def oracle_float(ctx, hermitian=True, ncases=None, props=None):
     import random
     n = ncases or ctx.n(16, 400)
     cases = [gen_case(ctx.rng, hermitian) for _ in range(n)]
+    # every run contains each structured family at least once (rejection sampling of the same generator)
+    def forced(pred):
+        for _ in range(400):
+            c = gen_case(ctx.rng, hermitian)
+            if pred(c):
+                return c
+        return None
+    wanted = [lambda c: c["spm"] and c["fully"] and max(c["sizes"]) >= 2, lambda c: c["spm"] and c["fully"] and len(c["sizes"]) >= 2,
+              lambda c: c["eig"], lambda c: c["custom"], lambda c: c["chain"] or c["tinyim"], lambda c: c["chain"] or (c["tinyim"] and c["fully"])]
+    cases += [c for c in (forced(w) for w in wanted) if c is not None]
     if ctx.quick:
         res = [check_case(c) for c in cases]
     else:
@@ -272,7 +302,7 @@ def oracle_float(ctx, hermitian=True, ncases=None, props=None):
     fails = [f for r in res for f in r if (props is None or f.get("prop") in props or f.get("prop") in ("run", "finite"))]
     import json
     return dict(evaluations=len(cases), nontrivial=len({json.dumps(c, sort_keys=True) for c in cases if sum(c["sizes"]) >= 2}),
-                rule="random FLOAT problems (dense/sparse, real/complex entries, complex unperturbed energies in non-Hermitian mode, 1-3 blocks of size 1-3, 1-2 parameters, tuple fully_diagonalize with degenerate pairs; Hermitian tolerance chains; a quarter with complete subspace_eigenvectors - unitary, or biorthogonal (right,left) pairs - and lab-basis perturbations projected by the oracle; custom solve_sylvester (two-argument, and the deprecated one-argument form) with block-diagonal non-diagonal H_0), total order <= 3, tolerance 2e-8*scale^3; non-Hermitian cases keep every kept element between equal unperturbed energies",
+                rule="random FLOAT problems (dense/sparse, real/complex entries, complex unperturbed energies in non-Hermitian mode, 1-3 blocks of size 1-3, 1-2 parameters, tuple fully_diagonalize with degenerate pairs; Hermitian tolerance chains; a quarter with complete subspace_eigenvectors - unitary, or biorthogonal (right,left) pairs - and lab-basis perturbations projected by the oracle; non-Hermitian energies with tiny imaginary parts; blocks given separately as scipy.sparse matrices (csr_matrix / coo_matrix); custom solve_sylvester (two-argument, and the deprecated one-argument form) with block-diagonal non-diagonal H_0), total order <= 3, tolerance 2e-8*scale^3; non-Hermitian cases keep every kept element between equal unperturbed energies",
                 samples=cases[:2], failures=fails)
 
 
